@@ -200,12 +200,17 @@ def run(v, tier, seed, replay):
             if which == "jaeger" and out.startswith("dg") and len(out.split()) == 2:
                 jd_lines.append("jdec " + out.split()[1]); jd_meta.append(ci)
                 jd_lines.append("jview %s %s" % (G.hx(svc), G.wire_records(b))); jd_meta.append(ci)
+    if impl is not None:
+        for ci, ((which, b), out) in enumerate(zip(cases, impl)):
+            if which == "datadog" and out.startswith("dd ") and len(out.split()) == 4:
+                jd_lines.append("ddec " + out.split()[3]); jd_meta.append(ci)
+                jd_lines.append("dview %s %s %s %s" % (G.hx(svc), G.hx(res), G.hx(ty), G.wire_records(b))); jd_meta.append(ci)
     decoded_ok = 0
     if jd_lines and os.path.exists(C.FMODEL):
         rc, jo, _ = C.run_lines(C.FMODEL, "report", jd_lines)
         for k in range(0, len(jo) - 1, 2):
             if jo[k] != jo[k + 1]:
-                fails.append((jd_meta[k], "the proved Thrift decoder reads the real datagram as %r; the records are %r" % (jo[k][:300], jo[k + 1][:300])))
+                fails.append((jd_meta[k], "the proved decoder reads the real bytes as %r; the records are %r" % (jo[k][:300], jo[k + 1][:300])))
             else:
                 decoded_ok += 1
     for ci, bad in fails[:3]:
